@@ -286,6 +286,55 @@ func Formats(ll gtab.LookupList) [][]int {
 	return res
 }
 
+// CovIndices lists, per lookup and subtable, the coverage indices of every coverage table of the
+// subtable in glyph order (a well-formed table numbers its glyphs 0, 1, 2, ... in increasing glyph order);
+// the glyph lists of the projection do not show them.
+func CovIndices(ll gtab.LookupList) [][][][]int {
+	idx := func(c coverage.Table) []int {
+		res := []int{}
+		for _, g := range c.Glyphs() {
+			res = append(res, c[g])
+		}
+		return res
+	}
+	res := [][][][]int{}
+	for _, l := range ll {
+		per := [][][]int{}
+		for _, st := range l.Subtables {
+			tt := [][]int{}
+			switch t := st.(type) {
+			case *gtab.Gsub1_2:
+				tt = append(tt, idx(t.Cov))
+			case *gtab.Gsub2_1:
+				tt = append(tt, idx(t.Cov))
+			case *gtab.Gsub3_1:
+				tt = append(tt, idx(t.Cov))
+			case *gtab.Gsub4_1:
+				tt = append(tt, idx(t.Cov))
+			case *gtab.SeqContext1:
+				tt = append(tt, idx(t.Cov))
+			case *gtab.SeqContext2:
+				tt = append(tt, idx(t.Cov))
+			case *gtab.ChainedSeqContext1:
+				tt = append(tt, idx(t.Cov))
+			case *gtab.ChainedSeqContext2:
+				tt = append(tt, idx(t.Cov))
+			case *gtab.Gpos1_1:
+				tt = append(tt, idx(t.Cov))
+			case *gtab.Gpos1_2:
+				tt = append(tt, idx(t.Cov))
+			case *gtab.Gpos3_1:
+				tt = append(tt, idx(t.Cov))
+			case *gtab.Gpos4_1:
+				tt = append(tt, idx(t.MarkCov), idx(t.BaseCov))
+			}
+			per = append(per, tt)
+		}
+		res = append(res, per)
+	}
+	return res
+}
+
 // Canon projects a lookup list.  A panic inside the projection (index out of range in an
 // inconsistent table) is reported in the note, not propagated.
 func Canon(ll gtab.LookupList) (res []any, note string) {
